@@ -110,9 +110,10 @@ func (e Engine) newLogs(config dvid.StoreConfig) (*fileLogs, bool, error) {
 	// }
 
 	log := &fileLogs{
-		path:   path,
-		config: config,
-		files:  make(map[string]*fileLog),
+		path:    path,
+		config:  config,
+		files:   make(map[string]*fileLog),
+		trimmed: make(map[string]bool),
 	}
 	return log, created, nil
 }
@@ -134,10 +135,46 @@ func (f *fileLog) writeHeader(msg storage.LogMessage) error {
 }
 
 type fileLogs struct {
-	path   string
-	config dvid.StoreConfig
-	files  map[string]*fileLog // key = data + version UUID
+	path    string
+	config  dvid.StoreConfig
+	files   map[string]*fileLog // key = data + version UUID
+	trimmed map[string]bool     // topics whose file has been checked for a torn tail by this process
 	sync.RWMutex
+}
+
+// trimTornTail truncates a log file behind its last completely written record.  Only the
+// 6-byte record headers are read.
+func trimTornTail(filename string) error {
+	f, err := os.OpenFile(filename, os.O_RDWR, 0755)
+	if err != nil {
+		if os.IsNotExist(err) {
+			return nil
+		}
+		return err
+	}
+	defer f.Close()
+	fi, err := f.Stat()
+	if err != nil {
+		return err
+	}
+	size := fi.Size()
+	hdr := make([]byte, 6)
+	var pos int64
+	for pos+6 <= size {
+		if _, err := f.ReadAt(hdr, pos); err != nil {
+			return err
+		}
+		n := int64(binary.LittleEndian.Uint32(hdr[2:6]))
+		if pos+6+n > size {
+			break
+		}
+		pos += 6 + n
+	}
+	if pos < size {
+		dvid.Criticalf("filelog %q: dropping %d bytes of a torn record at position %d before appending\n", filename, size-pos, pos)
+		return f.Truncate(pos)
+	}
+	return nil
 }
 
 // ReadBinary reads all the data from a given log
@@ -364,6 +401,17 @@ func (flogs *fileLogs) getWriteLog(topic string) (fl *fileLog, err error) {
 	flogs.RUnlock()
 	if !found {
 		filename := filepath.Join(flogs.path, topic)
+		// A crash during an earlier Append can have left a torn record at the end of the file.
+		// Appending behind it would mis-frame every later record, so trim it first (once per topic).
+		flogs.Lock()
+		trimmed := flogs.trimmed[topic]
+		flogs.trimmed[topic] = true
+		flogs.Unlock()
+		if !trimmed {
+			if err = trimTornTail(filename); err != nil {
+				return
+			}
+		}
 		var f *os.File
 		f, err = os.OpenFile(filename, os.O_WRONLY|os.O_CREATE|os.O_APPEND|os.O_SYNC, 0755)
 		if err != nil {
